@@ -6,6 +6,7 @@ C13 — no bytecode input can make the loader, the verifier or the VM's control 
 import NanoVerif.Lemmas.NvmSafe
 import NanoVerif.Model.Verifier
 import NanoVerif.Model.Vm
+import NanoVerif.Lemmas.HeapRun
 namespace NanoVerif.C13
 open Gen (Opc)
 
@@ -312,6 +313,141 @@ theorem callFunction_inv (m : Module) (s s' : VmState) (f : Nat)
       rcases List.mem_cons.mp hm with rfl | h'
       · exact hc
       · exact hfr fr h'
+
+/-! ### whole executions: `vm_execute` on a verified module -/
+
+/-- every frame names an existing function (the part of `CtlInv` that survives a stop) -/
+def FramesOk (m : Module) (s : VmState) : Prop := ∀ fr ∈ s.frames, fr.fnIdx < m.functions.length
+
+theorem enterFn_framesOk (m : Module) (s : VmState) (callee : Nat) (cl : Option Nat) (h : FramesOk m s) :
+    FramesOk m (enterFn m s callee cl).1 := by
+  unfold enterFn
+  split
+  · exact h
+  · rename_i fn hfn
+    split
+    · exact h
+    · intro fr hm
+      rcases List.mem_cons.mp hm with rfl | h'
+      · exact (List.getElem?_eq_some_iff.mp hfn).1
+      · exact h fr h'
+
+theorem doRet_frames (s : VmState) (imp : Bool) : (doRet s imp).1.frames = s.frames ∨ (doRet s imp).1.frames = s.frames.tail := by
+  unfold doRet
+  cases hfr : s.frames with
+  | nil => left; simp only; split <;> exact hfr
+  | cons fr rest =>
+    right
+    simp only
+    cases rest with
+    | nil => rfl
+    | cons caller tl => rfl
+
+theorem doRet_framesOk (m : Module) (s : VmState) (imp : Bool) (h : FramesOk m s) : FramesOk m (doRet s imp).1 := by
+  intro f hf
+  rcases doRet_frames s imp with e | e
+  · rw [e] at hf; exact h f hf
+  · rw [e] at hf; exact h f (List.mem_of_mem_tail hf)
+
+theorem execInstr_framesOk (m : Module) (s : VmState) (st : Nat) (op : Opc) (args : List Nat) (h : FramesOk m s) :
+    FramesOk m (execInstr m s st op args).1 := by
+  unfold execInstr
+  split
+  · exact h
+  · split
+    · exact enterFn_framesOk m s _ _ h
+    · exact doRet_framesOk m s _ h
+    · split
+      rename_i c f hpop
+      dsimp only
+      split
+      · split
+        · exact enterFn_framesOk m { s with toCore := c } _ _ h
+        · exact h
+      · split <;> exact h
+
+theorem step_framesOk (m : Module) (s : VmState) (h : FramesOk m s) : FramesOk m (step m s).1 := by
+  unfold step
+  split
+  · exact h
+  · dsimp only
+    split
+    · exact h
+    · split
+      · split
+        · exact h
+        · split
+          · exact h
+          · split
+            · exact h
+            · exact execInstr_framesOk m { s with ip := _ } _ _ _ h
+      · exact doRet_framesOk m s true h
+
+theorem runLoop_framesOk (m : Module) : ∀ (fuel : Nat) (s : VmState), FramesOk m s → FramesOk m (runLoop m fuel s).1 := by
+  intro fuel
+  induction fuel with
+  | zero => intro s h; exact h
+  | succ n ih =>
+    intro s h
+    have hs := step_framesOk m s h
+    unfold runLoop
+    split
+    · rename_i s' heq; rw [heq] at hs; exact ih s' hs
+    · exact hs
+
+theorem callFunction_no_oob (m : Module) (s : VmState) (f : Nat) (w : String) : (callFunction m s f).2 ≠ .oob w := by
+  unfold callFunction; (repeat' split) <;> simp
+
+theorem callFunction_framesOk (m : Module) (s : VmState) (f : Nat) (h : FramesOk m s) : FramesOk m (callFunction m s f).1 := by
+  unfold callFunction
+  split
+  · exact h
+  · rename_i fn hfn
+    split
+    · exact h
+    · intro fr hm
+      rcases List.mem_cons.mp hm with rfl | h'
+      · exact (List.getElem?_eq_some_iff.mp hfn).1
+      · exact h fr h'
+
+/-- one `vm_call_function` + dispatch loop, as `vm_execute` runs `__init__` and the entry point -/
+theorem runFn_safe (m : Module) (hv : verify m = true) (hs : SmallCode m) (s : VmState) (f fl : Nat) (hf : FramesOk m s)
+    (r : Step × Nat)
+    (hr : (match callFunction m s f with
+            | (s', Outcome.running) => (runLoop m fl s', fuelLeft m fl s')
+            | r => (r, fl)) = r) : (∀ w, r.1.2 ≠ .oob w) ∧ FramesOk m r.1.1 := by
+  subst hr
+  split
+  · rename_i s' heq
+    have hi := callFunction_inv m s s' f hf heq
+    exact ⟨run_safe m hv hs fl s' hi, runLoop_framesOk m fl s' hi.2.2.2⟩
+  · rename_i r hne
+    exact ⟨fun w => callFunction_no_oob m s f w, callFunction_framesOk m s f hf⟩
+
+/-- **`vm_execute` on a verified module never leaves its tables and never touches freed memory**: for every
+    accepted module and every instruction budget the outcome is a normal result, a reported VM error or the
+    model's `unsupported` (floats, hashmaps, extern calls, budget exhausted) - never an index outside the frame
+    array, the function table or the code section, and never (this half needs no verifier, see C14) a
+    dangling heap reference -/
+theorem execute_safe (m : Module) (hv : verify m = true) (hs : SmallCode m) (fuel : Nat) (w : String) :
+    (execute m fuel).2 ≠ .oob w ∧ (execute m fuel).2 ≠ .dangling w := by
+  refine ⟨?_, C14.execute_never_dangling m fuel w⟩
+  have h0 : FramesOk m {} := by intro fr hfr; simp at hfr
+  unfold execute
+  simp only
+  split
+  · simp
+  · split
+    · simp
+    · split
+      · rename_i i hi
+        split
+        · rename_i s1 fuel' heq
+          have h1 := (runFn_safe m hv hs {} i fuel h0 _ heq).2
+          exact (runFn_safe m hv hs s1 m.entryPoint fuel' h1 _ rfl).1 w
+        · rename_i r x hne heq
+          exact (runFn_safe m hv hs {} i fuel h0 _ heq).1 w
+      · exact (runFn_safe m hv hs {} m.entryPoint fuel h0 _ rfl).1 w
 
 /-! ### arithmetic is total -/
 
